@@ -60,10 +60,12 @@ theorem encssh_loop {R π ρ ι : Type} (cfg : SshEnc.Config R) (i : agessh_Encr
     · have hb : (ty != cfg.keyType) = true := by simp [ht]
       simp only [hb, if_true, ne_eq, ht, not_false_eq_true, ih m]
 
-/-- what follows once the passphrase is there: the key file is decrypted and validated (the region); only if that ends
-    without an early return is the decrypted identity remembered, and then it answers the header -/
-def encsshAfterPrompt {π ρ ι : Type} (U : ι → List age_Stanza → Go.M (Bytes × Option Go.Err))
-    (Rg : agessh_EncryptedSSHIdentity π ρ ι → Option Go.Err → Bytes → Go.M (Go.Loop ι (Bytes × Option Go.Err)))
+/-- what follows once the passphrase is there: the key file is decrypted and turned into an identity (the region, which may
+    make `Unwrap` return); the key's public half is compared with the DECLARED public key; only if they are equal is the
+    decrypted identity remembered, and then it answers the header -/
+def encsshAfterPrompt {π ρ ι κ ξ : Type} (U : ι → List age_Stanza → Go.M (Bytes × Option Go.Err))
+    (Rg : agessh_EncryptedSSHIdentity π ρ ι → Option Go.Err → Bytes → Go.M (Go.Loop (ξ × ι) (Bytes × Option Go.Err)))
+    (CPK : π → Go.M κ) (impl : π → Bool) (Eq : ξ → κ → Go.M Bool)
     (i : agessh_EncryptedSSHIdentity π ρ ι) (stanzas : List age_Stanza) (pw : Bytes × Option Go.Err) :
     Go.M (Bytes × Option Go.Err × agessh_EncryptedSSHIdentity π ρ ι) :=
   if (pw.2 != none) = true then .ok ([], some ⟨"agessh.(*EncryptedSSHIdentity).Unwrap", 1, []⟩, i)
@@ -71,23 +73,30 @@ def encsshAfterPrompt {π ρ ι : Type} (U : ι → List age_Stanza → Go.M (By
     let r ← Rg i pw.2 pw.1
     match r with
     | .ret v => pure (v.1, v.2, i)                          -- any failure: NOTHING is remembered
-    | .next d => do
-      let u ← U d stanzas
-      pure (u.1, u.2, { i with decrypted := d })
+    | .next (pk, d) =>
+      if impl i.pubKey = false then .error (.panic 9998)
+      else do
+        let exp ← CPK i.pubKey
+        let same ← Eq pk exp
+        if same = false then pure ([], some ⟨"agessh.(*EncryptedSSHIdentity).Unwrap", 2, []⟩, i)   -- mismatch: nothing remembered
+        else do
+          let u ← U d stanzas
+          pure (u.1, u.2, { i with decrypted := d })
 
-theorem encssh_prompt_tie {R π ρ ι : Type} (cfg : SshEnc.Config R) (key : π)
+theorem encssh_prompt_tie {R π ρ ι κ ξ : Type} (cfg : SshEnc.Config R) (key : π)
     (Ty : π → Go.M Bytes) (hTy : Ty key = .ok cfg.keyType)
     (Fp : π → Go.M Bytes) (hFp : Fp key = .ok cfg.tag)
     (isNil : ι → Bool) (U : ι → List age_Stanza → Go.M (Bytes × Option Go.Err))
-    (Rg : agessh_EncryptedSSHIdentity π ρ ι → Option Go.Err → Bytes → Go.M (Go.Loop ι (Bytes × Option Go.Err))) (nilI : ι)
+    (Rg : agessh_EncryptedSSHIdentity π ρ ι → Option Go.Err → Bytes → Go.M (Go.Loop (ξ × ι) (Bytes × Option Go.Err)))
+    (nilX : ξ) (nilI : ι) (CPK : π → Go.M κ) (impl : π → Bool) (Eq : ξ → κ → Go.M Bool)
     (cb : Go.M (Bytes × Option Go.Err)) (rcp : ρ) (pem : Bytes) (dec : ι) (stanzas : List SshEnc.Stanza) :
-    agessh_EncryptedSSHIdentity_Unwrap isNil U Ty Fp Rg nilI ⟨key, rcp, pem, cb, dec⟩ (stanzas.map toGoSshStanza) =
+    agessh_EncryptedSSHIdentity_Unwrap isNil U Ty Fp Rg nilX nilI CPK impl Eq ⟨key, rcp, pem, cb, dec⟩ (stanzas.map toGoSshStanza) =
       if isNil dec = false then
         (U dec (stanzas.map toGoSshStanza)).map (fun r => (r.1, r.2, ⟨key, rcp, pem, cb, dec⟩))
       else match SshEnc.scanStanzas cfg stanzas with
         | .malformed => .ok ([], some ⟨"agessh.(*EncryptedSSHIdentity).Unwrap", 0, []⟩, ⟨key, rcp, pem, cb, dec⟩)
         | .noMatch => .ok ([], age_ErrIncorrectIdentity, ⟨key, rcp, pem, cb, dec⟩)
-        | .matched => cb >>= encsshAfterPrompt U Rg ⟨key, rcp, pem, cb, dec⟩ (stanzas.map toGoSshStanza) := by
+        | .matched => cb >>= encsshAfterPrompt U Rg CPK impl Eq ⟨key, rcp, pem, cb, dec⟩ (stanzas.map toGoSshStanza) := by
   have hl := encssh_loop cfg (⟨key, rcp, pem, cb, dec⟩ : agessh_EncryptedSSHIdentity π ρ ι) Ty hTy Fp hFp stanzas false
   simp only [agessh_EncryptedSSHIdentity_Unwrap, hl, bind, Except.bind, pure, Except.pure]
   cases hn : isNil dec with
@@ -113,42 +122,63 @@ theorem encssh_prompt_tie {R π ρ ι : Type} (cfg : SshEnc.Config R) (key : π)
           | ok r =>
             cases r with
             | ret v => rfl
-            | next d =>
+            | next pd =>
+              obtain ⟨pk, d⟩ := pd
               simp only []
-              cases U d (stanzas.map toGoSshStanza) <;> rfl
+              cases hi : impl key with
+              | false => simp [hi, throw, throwThe, MonadExceptOf.throw]
+              | true =>
+                simp only [hi, if_true, Bool.true_eq_false, if_false]
+                cases CPK key with
+                | error e => rfl
+                | ok exp =>
+                  simp only []
+                  cases Eq pk exp with
+                  | error e => rfl
+                  | ok same =>
+                    cases same with
+                    | false => simp
+                    | true =>
+                      simp only [Bool.not_true, Bool.false_eq_true, if_false, Bool.true_eq_false]
+                      first
+                        | done
+                        | (cases U d (stanzas.map toGoSshStanza) <;> rfl)
 
 /-- no prompt without a match: a callback that faults when called is never reached (nor is the key file touched) -/
-theorem encssh_no_prompt {R π ρ ι : Type} (cfg : SshEnc.Config R) (key : π)
+theorem encssh_no_prompt {R π ρ ι κ ξ : Type} (cfg : SshEnc.Config R) (key : π)
     (Ty : π → Go.M Bytes) (hTy : Ty key = .ok cfg.keyType)
     (Fp : π → Go.M Bytes) (hFp : Fp key = .ok cfg.tag)
-    (isNil : ι → Bool) (U : ι → List age_Stanza → Go.M (Bytes × Option Go.Err)) (nilI : ι)
+    (isNil : ι → Bool) (U : ι → List age_Stanza → Go.M (Bytes × Option Go.Err)) (nilX : ξ) (nilI : ι)
+    (CPK : π → Go.M κ) (impl : π → Bool) (Eq : ξ → κ → Go.M Bool)
     (rcp : ρ) (pem : Bytes) (dec : ι) (hdec : isNil dec = true) (stanzas : List SshEnc.Stanza)
     (h : SshEnc.scanStanzas cfg stanzas ≠ .matched) :
-    ∃ res, agessh_EncryptedSSHIdentity_Unwrap isNil U Ty Fp (fun _ _ _ => .error (.panic 98)) nilI
+    ∃ res, agessh_EncryptedSSHIdentity_Unwrap isNil U Ty Fp (fun _ _ _ => .error (.panic 98)) nilX nilI CPK impl Eq
         ⟨key, rcp, pem, .error (.panic 99), dec⟩ (stanzas.map toGoSshStanza) = .ok res ∧
       res.2.1 ≠ none ∧ res.2.2 = ⟨key, rcp, pem, .error (.panic 99), dec⟩ := by
-  rw [encssh_prompt_tie cfg key Ty hTy Fp hFp isNil U _ nilI _ rcp pem dec stanzas]
+  rw [encssh_prompt_tie cfg key Ty hTy Fp hFp isNil U _ nilX nilI CPK impl Eq _ rcp pem dec stanzas]
   simp only [hdec, Bool.true_eq_false, if_false]
   cases hs : SshEnc.scanStanzas cfg stanzas with
   | malformed => exact ⟨_, rfl, by simp, rfl⟩
   | noMatch => exact ⟨_, rfl, by simp [age_ErrIncorrectIdentity], rfl⟩
   | matched => exact absurd hs h
 
-/-- NO HISTORY unless the key was validated: whenever the call reports an error — no match, a malformed stanza, a failed
-    prompt, a key file that does not decrypt, parse or match the declared public key (every early return of the region) —
-    the identity handed back is the identity handed in: nothing decrypted is kept -/
-theorem encssh_no_history {R π ρ ι : Type} (cfg : SshEnc.Config R) (key : π)
+/-- NO HISTORY unless the key was validated: whenever the identity handed back differs from the one handed in, the prompt
+    succeeded, the key file was turned into an identity `d` with public half `pk`, `pk` was found EQUAL to the declared public
+    key, and the only change is that `d` is remembered — the identity that answered the header -/
+theorem encssh_no_history {R π ρ ι κ ξ : Type} (cfg : SshEnc.Config R) (key : π)
     (Ty : π → Go.M Bytes) (hTy : Ty key = .ok cfg.keyType)
     (Fp : π → Go.M Bytes) (hFp : Fp key = .ok cfg.tag)
     (isNil : ι → Bool) (U : ι → List age_Stanza → Go.M (Bytes × Option Go.Err))
-    (Rg : agessh_EncryptedSSHIdentity π ρ ι → Option Go.Err → Bytes → Go.M (Go.Loop ι (Bytes × Option Go.Err))) (nilI : ι)
+    (Rg : agessh_EncryptedSSHIdentity π ρ ι → Option Go.Err → Bytes → Go.M (Go.Loop (ξ × ι) (Bytes × Option Go.Err)))
+    (nilX : ξ) (nilI : ι) (CPK : π → Go.M κ) (impl : π → Bool) (Eq : ξ → κ → Go.M Bool)
     (cb : Go.M (Bytes × Option Go.Err)) (rcp : ρ) (pem : Bytes) (dec : ι) (hdec : isNil dec = true) (stanzas : List SshEnc.Stanza)
     (res : Bytes × Option Go.Err × agessh_EncryptedSSHIdentity π ρ ι)
-    (hres : agessh_EncryptedSSHIdentity_Unwrap isNil U Ty Fp Rg nilI ⟨key, rcp, pem, cb, dec⟩ (stanzas.map toGoSshStanza) = .ok res)
+    (hres : agessh_EncryptedSSHIdentity_Unwrap isNil U Ty Fp Rg nilX nilI CPK impl Eq ⟨key, rcp, pem, cb, dec⟩ (stanzas.map toGoSshStanza) = .ok res)
     (hchg : res.2.2 ≠ ⟨key, rcp, pem, cb, dec⟩) :
-    ∃ pw d, cb = .ok (pw, none) ∧ Rg ⟨key, rcp, pem, cb, dec⟩ none pw = .ok (.next d) ∧
+    ∃ pw pk d exp, cb = .ok (pw, none) ∧ Rg ⟨key, rcp, pem, cb, dec⟩ none pw = .ok (.next (pk, d)) ∧
+      CPK key = .ok exp ∧ Eq pk exp = .ok true ∧
       res.2.2 = ⟨key, rcp, pem, cb, d⟩ ∧ U d (stanzas.map toGoSshStanza) = .ok (res.1, res.2.1) := by
-  rw [encssh_prompt_tie cfg key Ty hTy Fp hFp isNil U Rg nilI cb rcp pem dec stanzas] at hres
+  rw [encssh_prompt_tie cfg key Ty hTy Fp hFp isNil U Rg nilX nilI CPK impl Eq cb rcp pem dec stanzas] at hres
   simp only [hdec, Bool.true_eq_false, if_false] at hres
   cases hs : SshEnc.scanStanzas cfg stanzas with
   | malformed => rw [hs] at hres; cases hres; exact absurd rfl hchg
@@ -171,15 +201,33 @@ theorem encssh_no_history {R π ρ ι : Type} (cfg : SshEnc.Config R) (key : π)
           rw [hr] at hres
           cases r with
           | ret v => simp [pure, Except.pure] at hres; subst hres; rw [hcb] at hchg; exact absurd rfl hchg
-          | next d =>
+          | next pd =>
+            obtain ⟨pk, d⟩ := pd
             simp only [] at hres
-            cases hu : U d (stanzas.map toGoSshStanza) with
-            | error e => rw [hu] at hres; cases hres
-            | ok u =>
-              rw [hu] at hres
-              simp [pure, Except.pure] at hres
-              subst hres
-              exact ⟨p, d, rfl, hr, rfl, hu⟩
+            cases hi : impl key with
+            | false => simp [hi] at hres
+            | true =>
+              simp only [hi, Bool.true_eq_false, if_false] at hres
+              cases hc : CPK key with
+              | error e => rw [hc] at hres; cases hres
+              | ok exp =>
+                rw [hc] at hres
+                simp only [] at hres
+                cases he : Eq pk exp with
+                | error e => rw [he] at hres; cases hres
+                | ok same =>
+                  rw [he] at hres
+                  cases same with
+                  | false => simp [pure, Except.pure] at hres; subst hres; rw [hcb] at hchg; exact absurd rfl hchg
+                  | true =>
+                    simp only [Bool.true_eq_false, if_false] at hres
+                    cases hu : U d (stanzas.map toGoSshStanza) with
+                    | error e => rw [hu] at hres; cases hres
+                    | ok u =>
+                      rw [hu] at hres
+                      simp [pure, Except.pure] at hres
+                      subst hres
+                      exact ⟨p, pk, d, exp, rfl, hr, rfl, he, rfl, hu⟩
 
 end GoTie
 end AgeModel
